@@ -32,6 +32,80 @@ func slideXMLBody(tok string, title string, withTable bool) string {
 	return b.String()
 }
 
+// notesXMLBody is a notes slide (ECMA-376 part 1 §19.3.1.26 p:notes): the slide
+// image placeholder, the body placeholder carrying the speaker's text, and a
+// slide-number field.
+func notesXMLBody(tok string) string {
+	return xmlHdr + `<p:notes xmlns:a="` + nsA + `" xmlns:r="` + nsRel + `" xmlns:p="` + nsP + `"><p:cSld><p:spTree><p:nvGrpSpPr><p:cNvPr id="1" name=""/><p:cNvGrpSpPr/><p:nvPr/></p:nvGrpSpPr><p:grpSpPr/>` +
+		`<p:sp><p:nvSpPr><p:cNvPr id="2" name="Slide Image Placeholder 1"/><p:cNvSpPr/><p:nvPr><p:ph type="sldImg"/></p:nvPr></p:nvSpPr><p:spPr/></p:sp>` +
+		`<p:sp><p:nvSpPr><p:cNvPr id="3" name="Notes Placeholder 2"/><p:cNvSpPr/><p:nvPr><p:ph type="body" idx="1"/></p:nvPr></p:nvSpPr><p:spPr/><p:txBody><a:bodyPr/><a:p><a:r><a:t>remember ` + tok + ` here</a:t></a:r></a:p></p:txBody></p:sp>` +
+		`</p:spTree></p:cSld></p:notes>`
+}
+
+// relTarget is the shortest relative reference from a part in directory baseDir
+// to the part name (OPC part 2 §8.3: relative targets resolve against the source part).
+func relTarget(baseDir, name string) string {
+	b, n := splitSegs(baseDir), splitSegs(name)
+	k := 0
+	for k < len(b) && k < len(n)-1 && b[k] == n[k] {
+		k++
+	}
+	var segs []string
+	for i := k; i < len(b); i++ {
+		segs = append(segs, "..")
+	}
+	return strings.Join(append(segs, n[k:]...), "/")
+}
+
+// partRelsName is the relationship part of a part (OPC part 2 §8.3.4:
+// <dir>/_rels/<file name>.rels).
+func partRelsName(name string) string {
+	dir, base := dirOf(name), name
+	if i := strings.LastIndexByte(name, '/'); i >= 0 {
+		base = name[i+1:]
+	}
+	return joinName(joinName(dir, "_rels"), base+".rels")
+}
+
+// addNotes gives the slide part d speaker notes: a notes part with its own token, in a
+// conventional or renamed location, numbered independently of the slide.
+func addNotes(r *hx.Rng, d *part, tokIdx, num int, used map[string]bool) {
+	var name string
+	switch c := r.Intn(10); {
+	case c < 6:
+		name = fmt.Sprintf("ppt/notesSlides/notesSlide%d.xml", num)
+	case c < 8:
+		name = fmt.Sprintf("ppt/notes/%s%d.xml", hx.Pick(r, []string{"n-", "speaker", "a"}), num)
+	case c < 9:
+		name = joinName(dirOf(d.Name), fmt.Sprintf("notes-%d.xml", num))
+	default:
+		name = fmt.Sprintf("custom/notes/n%d.xml", num)
+	}
+	if used[name] {
+		return
+	}
+	used[name] = true
+	d.NotesTok, d.NotesName = token(r, tokIdx), name
+	d.NotesRef = relTarget(dirOf(d.Name), name)
+	if r.Chance(1, 7) {
+		d.NotesRef = "/" + name
+	}
+}
+
+// slideRelsXML is the slide's relationship part: its layout and, when it has notes,
+// the notesSlide relationship, in either order and with unrelated ids.
+func slideRelsXML(r *hx.Rng, d part) string {
+	rels := [][3]string{{fmt.Sprintf("rId%d", r.Range(1, 3)), nsRel + "/slideLayout", relTarget(dirOf(d.Name), "ppt/slideLayouts/slideLayout1.xml")}}
+	if d.NotesRef != "" {
+		rels = append(rels, [3]string{fmt.Sprintf("rId%d", r.Range(4, 9)), nsRel + "/notesSlide", d.NotesRef})
+	}
+	if r.Chance(1, 3) {
+		rels = append(rels, [3]string{"rId10", nsRel + "/image", relTarget(dirOf(d.Name), "ppt/media/image1.png")})
+	}
+	hx.Shuffle(r, rels)
+	return relsXML(rels)
+}
+
 func genPPTX(r *hx.Rng) *pkg {
 	p := &pkg{Fmt: "pptx", Variant: "sldIdLst", Oracle: true}
 	n := r.Range(1, 6)
@@ -45,6 +119,7 @@ func genPPTX(r *hx.Rng) *pkg {
 	}
 	nums := perm(r, n+3)
 	ids := perm(r, n+6)
+	nnums := perm(r, n+8) // notes parts are numbered independently of slides and positions
 	const tSlide = nsRel + "/slide"
 	var rels [][3]string
 	used := map[string]bool{}
@@ -102,6 +177,11 @@ func genPPTX(r *hx.Rng) *pkg {
 		if d.State != stDangling && !noRels {
 			rels = append(rels, [3]string{d.ID, tSlide, d.Ref})
 		}
+		// speaker notes: for readable slides, and left behind for slide parts that are
+		// missing / malformed / no longer reachable (their notes belong to no page)
+		if d.Name != "" && r.Chance(3, 5) {
+			addNotes(r, &d, 20+k, nnums[k]+1, used)
+		}
 		p.Declared = append(p.Declared, d)
 	}
 	rels = append(rels, [3]string{"rId1", nsRel + "/slideMaster", "slideMasters/slideMaster1.xml"}, [3]string{"rIdPP", nsRel + "/presProps", "presProps.xml"})
@@ -126,6 +206,9 @@ func genPPTX(r *hx.Rng) *pkg {
 		if r.Chance(1, 3) && !noRels {
 			d.InManifest = true // a slide relationship that the slide list does not mention
 			rels = append(rels, [3]string{fmt.Sprintf("rIdOrphan%d", k), tSlide, strings.TrimPrefix(d.Name, "ppt/")})
+		}
+		if r.Chance(1, 2) {
+			addNotes(r, &d, 70+k, nnums[n+k]+1, used)
 		}
 		p.Decoys = append(p.Decoys, d)
 	}
@@ -195,6 +278,36 @@ func genPPTX(r *hx.Rng) *pkg {
 	for _, d := range p.Decoys {
 		p.add(d.Name, slideXMLBody(d.Tok, d.Title, false), "L")
 	}
+	// slide relationship parts and notes parts (opaque to the model: they do not take
+	// part in deciding which parts are presented, or in which order)
+	withNotes := func(ds []part) {
+		for i := range ds {
+			d := &ds[i]
+			if d.Name == "" {
+				continue
+			}
+			if d.NotesTok == "" {
+				if r.Chance(1, 3) && !p.has(partRelsName(d.Name)) {
+					p.add(partRelsName(d.Name), slideRelsXML(r, *d), "")
+				}
+				continue
+			}
+			if p.has(partRelsName(d.Name)) { // cannot happen with distinct part names; stay safe
+				d.NotesTok, d.NotesName, d.NotesRef = "", "", ""
+				continue
+			}
+			p.add(partRelsName(d.Name), slideRelsXML(r, *d), "")
+			if r.Chance(1, 12) {
+				// optional part absent: the relationship stays, the notes part is gone
+				d.NotesTok = ""
+				p.Notes = append(p.Notes, "notes-part-missing")
+				continue
+			}
+			p.add(d.NotesName, notesXMLBody(d.NotesTok), "")
+		}
+	}
+	withNotes(p.Declared)
+	withNotes(p.Decoys)
 	// when the slide list yields no relationship target at all the reader falls back to
 	// file-name discovery: nothing is declared then, so the oracles do not apply
 	resolvable := 0
